@@ -18,6 +18,8 @@ from fractions import Fraction
 
 ROOT = os.path.dirname(os.path.dirname(os.path.abspath(__file__)))
 PY = os.path.join(ROOT, ".venv", "bin", "python")
+# VERIF_REPO=<dir>: a scratch checkout analysed instead of /repo (see ./check)
+PYPATH = (os.environ["VERIF_REPO"] + os.pathsep if os.environ.get("VERIF_REPO") else "") + ROOT
 
 
 # ----------------------------------------------------------------------------- helpers
@@ -221,7 +223,7 @@ def replay_in_subprocess(modname, harness, inputs, tmpdir, tag="r"):
     kw = os.path.join(tmpdir, "%s.in.json" % tag)
     out = os.path.join(tmpdir, "%s.out.json" % tag)
     json.dump(jsonable(inputs), open(kw, "w"))
-    env = dict(os.environ, PYTHONPATH=ROOT, PYTHONHASHSEED="0")
+    env = dict(os.environ, PYTHONPATH=PYPATH, PYTHONHASHSEED="0")
     try:
         subprocess.run([PY, "-m", "lib.core", "replay", modname, harness, kw, out], cwd=ROOT, env=env, timeout=600,
                        stdout=subprocess.DEVNULL, stderr=subprocess.PIPE)
@@ -235,7 +237,7 @@ def run_jobs(modname, jobs, tmpdir, nproc=16, log=print):
     pending = list(enumerate(jobs))
     running = {}
     results = [None] * len(jobs)
-    env = dict(os.environ, PYTHONPATH=ROOT, PYTHONHASHSEED="0")
+    env = dict(os.environ, PYTHONPATH=PYPATH, PYTHONHASHSEED="0")
     while pending or running:
         while pending and len(running) < nproc:
             i, job = pending.pop(0)
